@@ -953,6 +953,8 @@ def miri_args(cfg, mode="concurrent"):
         a += ["--bulk", str(cfg["bulk"])]
     if cfg.get("churn"):
         a += ["--churn", str(cfg["churn"])]
+    if cfg.get("teardown"):
+        a += ["--teardown", str(cfg["teardown"])]
     if cfg.get("barrier") and mode == "concurrent":
         a.append("--barrier")
     if cfg.get("stagger") and mode == "concurrent":
@@ -1122,6 +1124,9 @@ def c17_matrix(seed, count, deep=False):
             "stagger": rng.below(12) if i % 5 == 2 else 0,
             # a third of the runs release their threads together through a start barrier
             "barrier": i % 3 == 0,
+            # on some unstamped runs every spawned thread creates a few more nodes from a
+            # thread-local destructor while it is torn down
+            "teardown": (2 + rng.below(5)) if i % 6 == 1 else 0,
         })
     # long runs: more than 1024 (thorough: 4096) node creations per thread, so that anything that
     # happens only every N draws (batched statistics, periodic re-seeding, block reservations)
@@ -1171,6 +1176,8 @@ def c17_matrix(seed, count, deep=False):
             "main_participates": j % 3 == 0,
             "barrier": True,
             "stagger": 0,
+            # short equal histories end together: overlapping teardowns on a quarter of the storms
+            "teardown": 3 if j % 4 == 1 else 0,
         })
     cfgs.sort(key=lambda c: -(c.get("long", 0) + 4 * c.get("bulk", 0)))  # stable: the slow runs start first
     return cfgs
